@@ -141,7 +141,38 @@ pub fn catch<R>(f: impl FnOnce() -> R) -> Result<R, String> {
     }
 }
 
+/// Progress counter read by the watchdog: a check that makes no progress for a long time is a
+/// hang (e.g. inside liblinear) and is reported as "could not decide" (exit 2), never as a
+/// violation.
+pub static HEARTBEAT: std::sync::atomic::AtomicU64 = std::sync::atomic::AtomicU64::new(0);
+
+pub fn start_watchdog(limit_secs: u64) {
+    static STARTED: AtomicBool = AtomicBool::new(false);
+    if STARTED.swap(true, Ordering::SeqCst) {
+        return;
+    }
+    std::thread::spawn(move || {
+        let mut last = HEARTBEAT.load(Ordering::Relaxed);
+        let mut idle = 0u64;
+        loop {
+            std::thread::sleep(std::time::Duration::from_secs(5));
+            let now = HEARTBEAT.load(Ordering::Relaxed);
+            if now == last {
+                idle += 5;
+                if idle >= limit_secs {
+                    eprintln!("INCONCLUSIVE: watchdog: no case finished for {idle} s (hang); exiting 2");
+                    std::process::exit(2);
+                }
+            } else {
+                idle = 0;
+                last = now;
+            }
+        }
+    });
+}
+
 fn run_case<C>(test: &(impl Fn(&C) -> TestResult + Sync), case: &C) -> TestResult {
+    HEARTBEAT.fetch_add(1, Ordering::Relaxed);
     match catch(|| test(case)) {
         Ok(r) => r,
         Err(p) => Err(Fail {
@@ -450,6 +481,7 @@ impl Report {
         G: Fn() -> S + Sync,
         F: Fn(&C) -> TestResult + Sync,
     {
+        start_watchdog(300);
         let mut pre = ShardStats::new();
         let go = self.pre_run::<C, F>(sub, &test, &mut pre);
         let shards: u64 = match self.ctx.tier {
